@@ -45,3 +45,22 @@ Theorem C01_toric2d_logicals_commute_with_stabilizers_for_all_sizes :
   (is_vertex s = false -> overlap_par (support Lx Ly s) (lz1 Ly) = false /\ overlap_par (support Lx Ly s) (lz2 Lx) = false).
 Proof. exact toric2d_logicals_commute_with_stabilizers. Qed.
 Print Assumptions C01_toric2d_logicals_commute_with_stabilizers_for_all_sizes.
+
+(** Layer P, Planar2DCode (open boundaries), every size L_x, L_y >= 2 *)
+From PQ Require Planar2D.
+Theorem C01_planar2d_all_stabilizers_commute_for_all_sizes :
+  forall (Lx Ly : BinNums.Z) s s', (2 <= Lx)%Z -> (2 <= Ly)%Z ->
+  In s (Planar2D.stab_coords Lx Ly) -> In s' (Planar2D.stab_coords Lx Ly) ->
+  Planar2D.ops_commute (Planar2D.is_vertex s) (Planar2D.support Lx Ly s) (Planar2D.is_vertex s') (Planar2D.support Lx Ly s') = true.
+Proof. exact Planar2D.planar2d_stabilizers_commute. Qed.
+Print Assumptions C01_planar2d_all_stabilizers_commute_for_all_sizes.
+
+(** Layer P, RotatedPlanar2DCode, every size L_x, L_y >= 2 *)
+From PQ Require RotatedPlanar2D.
+Theorem C01_rotated_planar2d_all_stabilizers_commute_for_all_sizes :
+  forall (Lx Ly : BinNums.Z) s s', (2 <= Lx)%Z -> (2 <= Ly)%Z ->
+  In s (RotatedPlanar2D.stab_coords Lx Ly) -> In s' (RotatedPlanar2D.stab_coords Lx Ly) ->
+  Planar2D.ops_commute (RotatedPlanar2D.is_vertex s) (RotatedPlanar2D.support Lx Ly s)
+                       (RotatedPlanar2D.is_vertex s') (RotatedPlanar2D.support Lx Ly s') = true.
+Proof. exact RotatedPlanar2D.rotated_planar2d_stabilizers_commute. Qed.
+Print Assumptions C01_rotated_planar2d_all_stabilizers_commute_for_all_sizes.
